@@ -634,6 +634,116 @@ def check_problem(case):
     return None
 
 
+def _exact(terms, how):
+    """coefficients in an exact number type whose distinct values a double cannot tell apart"""
+    import fractions
+    if how == "bigint":        # integer values around 2**60: neighbouring integers are one double
+        out = {k: int(v) for k, v in terms.items()}
+        out[()] = out.get((), 0) + 2 ** 60
+        return out
+    out = {k: fractions.Fraction(int(v), 10 ** 20) for k, v in terms.items()}      # 1 + tiny fractions
+    out[()] = out.get((), 0) + 1
+    return out
+
+
+def _gen_exact(ctx):
+    rng = ctx.rng("c09.exact")
+    for fn in FNS:
+        maxlen = 2 if fn in ("qubo", "quso") else 3
+        models = [{('a',): 1}, {('a',): -1, ('b',): 2}, {('a', 'b'): 1, ('a',): -1, (): 3}, {(0, 1): -2, (1,): 1, (0,): 1}]
+        models += list(gen_models(rng, ctx.pick(40, 800), LABELS[:3], maxlen, [-2, -1, 1, 2, 3], max_terms=4, min_terms=1))
+        for terms in models:
+            for how in ("bigint", "fraction"):
+                for allsol in (False, True):
+                    for T in ("dict",) + ((("QUSO", "PUSO") if fn == "quso" else ("PUSO",)) if fn in SPIN_FN
+                                          else (("QUBO", "PUBO") if fn == "qubo" else ("PUBO",))):
+                        yield {"fn": fn, "type": T, "terms": terms, "exact": how, "valid": "all", "all": allsol}
+
+
+@clause("C09.exact_coefficients", "C09", gen=_gen_exact, nontrivial=_nontrivial_core)
+def check_exact(case):
+    """the contract of C09.minimum_* / C09.all_solutions_* for coefficients of an exact real type whose distinct
+    values are closer than double precision resolves (Python ints around 2**60, fractions.Fraction around 1 with
+    differences of 1e-20): the objective is the exact minimum and only true minimisers are returned. Oracle: exact
+    arithmetic. Non-trivial: as C09.minimum_dict."""
+    terms = _exact(case["terms"], case["exact"])
+    spin = case["fn"] in SPIN_FN
+    vs = variables_of(terms)
+    M = dict(terms) if case["type"] == "dict" else cls_of(case["type"])(terms)
+    return _run(case, M, terms, vs, spin)
+
+
+def _gen_problem_free(ctx):
+    rng = ctx.rng("c09.problem.free")
+    # BILP: minimise c.x subject to S x = b; a column that is zero in S and in c is a free variable that does not
+    # occur in to_qubo() - leading, interior and trailing positions
+    fixed = [([1, 0], [[1, 0]], [1]), ([0, 1], [[0, 1]], [1]), ([0, 1, 0], [[0, 1, 0]], [1]), ([1, 0, 0], [[1, 0, 0]], [0]),
+             ([1, 2, 0], [[1, 1, 0]], [1]), ([0, 0, 1], [[0, 0, 1], [0, 0, 2]], [1, 2]), ([2, 0, 1, 0], [[1, 0, 1, 0]], [1])]
+    for c, S, b in fixed:
+        for allsol in (False, True):
+            yield {"problem": "BILP", "c": c, "S": S, "b": b, "all": allsol}
+    for n in (1, 2, 3):
+        for allsol in (False, True):
+            yield {"problem": "ASC", "n": n, "all": allsol}
+    for _ in range(ctx.pick(60, 1500)):
+        n = rng.randint(2, 4)
+        free = set(rng.sample(range(n), rng.randint(1, n - 1)))
+        c = [0 if i in free else rng.choice([-2, -1, 1, 2, 3]) for i in range(n)]
+        S = [[0 if i in free else rng.choice([0, 1, 1, 2]) for i in range(n)] for _ in range(rng.randint(1, 2))]
+        x0 = [rng.randint(0, 1) for _ in range(n)]
+        b = [sum(r[i] * x0[i] for i in range(n)) for r in S]
+        yield {"problem": "BILP", "c": c, "S": S, "b": b, "all": rng.random() < 0.5}
+
+
+@clause("C09.problem_free_variables", "C09", gen=_gen_problem_free, nontrivial=lambda c: c["problem"] == "BILP" and len(c["c"]) >= 2)
+def check_problem_free(case):
+    """Problem.solve_bruteforce (the solve_bruteforce method of the problem library's parent class) on instances
+    with variables that do not occur in to_qubo() (BILP with an all-zero column in any position,
+    AlternatingSectorsChain(1)): it returns - without raising - an assignment over exactly the problem's
+    num_binary_variables variables that is feasible and attains the minimum of the stated problem; with
+    all_solutions=True a non-empty list of distinct such assignments. Oracle: enumeration of the stated problem
+    (S x = b, minimal c.x) - not of the QUBO. Non-trivial: BILP with >= 2 variables."""
+    q = qv()
+    if case["problem"] == "ASC":
+        P = q.problems.AlternatingSectorsChain(case["n"])
+        got = P.solve_bruteforce(all_solutions=case["all"])
+        sols = got if case["all"] else [got]
+        if case["all"] and (not isinstance(got, list) or not got):
+            return Fail("all_solutions=True returned %r" % (got,), key="free-solutions-type")
+        for s in sols:
+            if len(tuple(s)) != case["n"] or any(v not in (1, -1) for v in s) or len(set(s)) != 1:
+                return Fail("AlternatingSectorsChain(%d).solve_bruteforce() gives %r, the ground states are the two "
+                            "uniform chains of length %d" % (case["n"], s, case["n"]), key="free-asc")
+        return None
+    c, S, b = case["c"], case["S"], case["b"]
+    n = len(c)
+    feas = [x for x in itertools.product((0, 1), repeat=n)
+            if all(sum(r[i] * x[i] for i in range(n)) == bj for r, bj in zip(S, b))]
+    opt = min(sum(c[i] * x[i] for i in range(n)) for x in feas)
+    P = q.problems.BILP(list(c), [list(r) for r in S], list(b))
+    # constraint weight strictly above the documented threshold A > B * sum|c| (the default weights promise nothing)
+    got = P.solve_bruteforce(all_solutions=case["all"], A=sum(abs(v) for v in c) + 1, B=1)
+    if case["all"]:
+        if not isinstance(got, list) or not got:
+            return Fail("all_solutions=True returned %r" % (got,), key="free-solutions-type")
+        sols = got
+    else:
+        sols = [got]
+    seen = set()
+    for s in sols:
+        x = tuple(int(v) for v in s)
+        if len(x) != n or any(v not in (0, 1) for v in x):
+            return Fail("solution %r is not a 0/1 vector over the %d variables" % (s, n), key="free-domain")
+        if x not in feas:
+            return Fail("solution %r does not satisfy S x = b" % (x,), key="free-infeasible")
+        if sum(c[i] * x[i] for i in range(n)) != opt:
+            return Fail("solution %r has cost %r, optimum %r" % (x, sum(c[i] * x[i] for i in range(n)), opt), key="free-cost")
+        if x in seen:
+            return Fail("solution %r returned twice" % (x,), key="free-duplicate")
+        seen.add(x)
+    return None
+
+
 # ---------------------------------------------------------------------------------------------
 # 9. Matrix models (and dicts) after edits that make a variable vanish
 # ---------------------------------------------------------------------------------------------
